@@ -154,5 +154,40 @@ theorem reported_balance_is_floor (D : Dec) (hD : 0 ≤ D) :
     truncateInt (D + rounder) * P ≤ D + rounder ∧ D + rounder < (truncateInt (D + rounder) + 1) * P :=
   reported_value_floor D hD
 
+
+/-- THE TOLERANCE, as a theorem: a deposit of x base units by somebody else issues Quo(tds, V)·x shares; with the validator's
+    value moving from V to V' the exact value s·V/tds of a position of s shares moves to s·V'/tds', and cross-multiplied by
+    tds·tds'·10¹⁸ the difference is s·x·(one rounding of `Quo`, in [−H·V, (H+1)·V]) plus s·(V' − V − x·10¹⁸)·tds·10¹⁸ — any error
+    of the new validator value enters linearly -/
+theorem deposit_moves_other_positions_by_one_rounding (s tds V V' : Dec) (x : Int) (hs : 0 ≤ s) (htds : 0 ≤ tds)
+    (hV : 0 < V) (hx : 0 ≤ x) :
+    let tds' := tds + mulInt (quo tds V) x
+    s * (V' * tds - V * tds') * P ≤ s * x * ((H + 1) * V) + s * ((V' - V - x * P) * (tds * P)) ∧
+    s * x * (-(H * V)) + s * ((V' - V - x * P) * (tds * P)) ≤ s * (V' * tds - V * tds') * P :=
+  deposit_drift s tds V V' x hs htds hV hx
+
+/-- with V' = V + x·10¹⁸: every other position's exact value moves by at most (½·10⁻¹⁸ + 10⁻³⁶)·x·(s/tds')·(V/tds) tokens — up —
+    and down by at most ½·10⁻¹⁸ of that -/
+theorem deposit_tolerance (s tds V : Dec) (x : Int) (hs : 0 ≤ s) (htds : 0 ≤ tds) (hV : 0 < V) (hx : 0 ≤ x) :
+    let tds' := tds + mulInt (quo tds V) x
+    let V' := V + x * P
+    s * (V' * tds - V * tds') * P ≤ s * x * ((H + 1) * V) ∧ s * x * (-(H * V)) ≤ s * (V' * tds - V * tds') * P :=
+  deposit_drift_exact_value s tds V x hs htds hV hx
+
+/-- the mirror for a withdrawal by somebody else in the unclamped branch of `ValidateDelegatedAmount` -/
+theorem withdrawal_tolerance (s tds V : Dec) (x : Int) (hs : 0 ≤ s) (htds : 0 ≤ tds) (hV : 0 < V) (hx : 0 ≤ x) :
+    let tds' := tds - mulInt (quo tds V) x
+    let V' := V - x * P
+    s * x * (-((H + 1) * V)) ≤ s * (V' * tds - V * tds') * P ∧ s * (V' * tds - V * tds') * P ≤ s * x * (H * V) :=
+  withdraw_drift_exact_value s tds V x hs htds hV hx
+
+/-- the shares `Delegate` issues are the ones the theorem speaks about -/
+theorem deposit_issues_those_shares (V tds : Dec) (x : Int) (htds : tds ≠ 0) (hV : V ≠ 0) :
+    convertNewTokenToShares V tds x = .ok (mulInt (quo tds V) x) := deposit_shares V tds x htds hV
+
+/-- non-vacuity: 3 shares worth 10 tokens, deposit of 5: tds' = 4.5, the exact value 10/3 of a 1-share position is kept -/
+example : let tds' := 3 * one + mulInt (quo (3 * one) (10 * one)) 5
+    tds' = 4500000000000000000 ∧ (10 * one + 5 * P) * (3 * one) - (10 * one) * tds' = 0 := by decide
+
 end C04
 end Alliance
